@@ -1,6 +1,7 @@
 package core
 
 import (
+	"runtime/pprof"
 	"encoding/json"
 	"fmt"
 	"os"
@@ -264,7 +265,9 @@ func DefaultParent(p *ParentCtx) *Result {
 	}
 	specs := make([]ChildSpec, n)
 	for i := range specs {
-		specs[i] = ChildSpec{Shard: i, Of: n, Mode: "shard"}
+		// the shards are sequential workloads; 16 of them with 16 scheduler threads each spend their time in the
+		// garbage collector's locks
+		specs[i] = ChildSpec{Shard: i, Of: n, Mode: "shard", Env: []string{"GOMAXPROCS=" + strconv.Itoa(envInt("VMON_SHARD_PROCS", 3)), "GOGC=400"}}
 	}
 	outs := p.Spawn(specs, envInt("VMON_PAR", runtime.NumCPU()))
 	return p.MergeOutcomes(outs)
@@ -420,6 +423,12 @@ func RunChild(c *Ctx, out string) int {
 		return ExitInconclusive
 	}
 	c.Res = NewResult(c.Prop, c.Shard)
+	if pf := os.Getenv("VMON_CPUPROFILE"); pf != "" && c.Shard == 0 { // development aid: where does a workload spend its time
+		if f, err := os.Create(pf); err == nil {
+			pprof.StartCPUProfile(f)
+			defer pprof.StopCPUProfile()
+		}
+	}
 	prop.Run(c)
 	if err := c.Res.Save(out); err != nil {
 		fmt.Fprintln(os.Stderr, "save result:", err)
